@@ -76,6 +76,16 @@ const (
 // named non-rune int32
 type NamedI32 int32
 
+// FielderT implements tabular's (unused) Fielder interface and nothing else.
+type FielderT struct{ A, B string }
+
+func (f FielderT) Fields() []string { return []string{f.A, f.B, "extra"} }
+
+// AnonFielderT implements tabular's (unused) AnonFielder interface and nothing else.
+type AnonFielderT struct{ N int }
+
+func (f AnonFielderT) AnonFields() []interface{} { return []interface{}{f.N, "x"} }
+
 // NamedStr is a named string type: not a string for a type switch, formatted by %v.
 type NamedStr string
 
@@ -220,6 +230,10 @@ func Materialise(it Item) *Live {
 		}
 	case "fmtr":
 		l.V = Fmtr(uint32(it.N))
+	case "fielder":
+		l.V = FielderT{string(it.S), "b"}
+	case "anonfielder":
+		l.V = AnonFielderT{int(it.N)}
 	case "nstr":
 		l.V = NamedStr(it.S)
 	case "stderr":
